@@ -23,9 +23,9 @@ CORR_MODULES = ["Lang.DeriveCorr"]
 PREFIX = "C40"
 CASE_TYPE = "C40_case"
 HARNESS = "c40"
-# classes 2 (hashid not masked, fixed by 470723e) and 7 (Vec<i8> as sequence<uint8>, fixed by 7de5ab3) are gone
-KNOWN = {1: "C40-explicit-id-ignored", 3: "C40-duplicate-member-ids",
-         4: "C40-enum-literals-not-published", 5: "C40-union-default-arm-order", 6: "C40-non-serialized-listed"}
+# fixed and gone: class 1 (explicit id ignored outside Mutable, 7ee9e78), 2 (hashid not masked, 470723e),
+# 6 (non_serialized member published, 0840b55), 7 (Vec<i8> as sequence<uint8>, 7de5ab3); numbers stay stable
+KNOWN = {3: "C40-duplicate-member-ids", 4: "C40-enum-literals-not-published", 5: "C40-union-default-arm-order"}
 RULE = ("a case is one generated type declaration (struct / tuple struct / enum / union with the documented "
         "#[dust_dds(...)] attributes, nested up to three levels) together with the descriptor printed from the real "
         "<T as Type>::TYPE and 3-6 values sent through the real create_dynamic_sample and create_sample; all "
@@ -44,9 +44,14 @@ ASSUMPTIONS = ["PARTIAL: rustc, syn parsing and macro hygiene are exercised only
                "user types implement Default as #[derive(Default)] (structs) / first variant (enums, unions); "
                "float values are not NaN and not -0.0 (Rust == is not the identity there)",
                "explicit ids, enum discriminants and union labels are integer literals; generics, base_type, "
-               "external and more than one #[dust_dds] attribute per item are outside the modelled language"]
+               "external are outside the modelled language; a declaration is the union of the items of all its "
+               "#[dust_dds(..)] attributes (every one is read since fix 99bf327; the generator splits them at random)"]
 
 GEN_DIR = os.path.join(core.CACHE, "c40gen")
+# corpus declarations always printed with several #[dust_dds(..)] attributes per item (regression for 99bf327:
+# `#[dust_dds(key)] #[dust_dds(id = 1)] id`, `#[dust_dds(extensibility = "appendable")] #[dust_dds(name = ..)] struct`)
+SPLIT_SEEDS = {"Profile": 7 + 11, "Point": 7, "Shape": 14 + 11, "TrafficLight": 7, "Reset": 7 + 22, "Collide": 14,
+               "MultiAttr": 100, "MultiAttrE": 7}
 
 # ------------------------------------------------------------------------------------------------
 # declarations (Python side): types are tuples
@@ -377,11 +382,12 @@ def gen_struct(r, idx, pool, weird):
     tuple_ = r.random() < 0.25
     n = r.choice([0, 1, 1, 2, 2, 3, 3, 4, 5, 6])
     names = uniq_names(r, n, WORDS)
-    use_ids = ext == "mutable" and r.random() < 0.5
+    use_ids = r.random() < (0.5 if ext == "mutable" else 0.3)     # explicit ids count in every extensibility kind
     messy_ids = use_ids and weird and r.random() < 0.5
     # explicit ids in arbitrary (also descending) order, far enough apart that the automatic members that
     # follow each of them ("previous id + 1") stay distinct: the counter is reset several times per struct
-    scrambled = use_ids and not messy_ids and r.random() < 0.7
+    # (Final/Appendable: the automatic ids are the member indices 0..5, the bases stay clear of them)
+    scrambled = use_ids and not messy_ids and (ext != "mutable" or r.random() < 0.7)
     if scrambled:
         n = r.choice([3, 4, 5, 6, 6])
     bases = [b * r.choice([50, 50, 1000]) for b in r.sample(range(1, 40), n)]
@@ -409,8 +415,6 @@ def gen_struct(r, idx, pool, weird):
             else:
                 last = last + r.choice([1, 1, 2, 5, 10, 1000, 2**20])
                 m["id"] = last
-        elif ext != "mutable" and weird and r.random() < 0.15:
-            m["id"] = r.randint(0, 40)
         if m["id"] is None and not m["hashid"]:
             last = last + 1
         elif m["id"] is not None and not m["hashid"]:
@@ -574,14 +578,36 @@ def corpus_decls():
     out.append(dict(kind="union", rname="Collide", cname=None, ext="final", nested=False, dkey=True, disc="u8", variants=[
         dict(name="A", cases=[], default=False, field=None, ty=P("i32")),
         dict(name="B", cases=[1], default=False, field="x", ty=P("i64"))]))
-    # class 1, 6: explicit id on a final struct, hashid, non_serialized
+    # several #[dust_dds(..)] attributes on a union, an enum and on variants (the case labels accumulate in order)
+    out.append(dict(kind="union", rname="MultiAttr", cname="pkg::MultiAttr", ext="mutable", nested=True, dkey=True,
+                    disc="i16", variants=[
+        dict(name="A", cases=[7], default=False, field=None, ty=P("u8")),
+        dict(name="B", cases=[3, -4, 9], default=False, field="x", ty=("string",)),
+        dict(name="C", cases=[11, 12], default=True, field=None, ty=None)]))
+    out.append(dict(kind="enum", rname="MultiAttrE", cname="pkg::E", nested=True, bits=8,
+                    variants=[("X", None), ("Y", 5), ("Z", None)]))
+    # regression for the fixed classes 1 and 6: explicit id on a final struct, hashid, non_serialized (0840b55)
     out.append(dict(kind="struct", rname="FinalIds", cname=None, ext="final", nested=False, tuple=False,
                     members=[m("a", P("i32"), id=7), m("color", P("u8"), hashid=True), m("c", P("i16"), ns=True)]))
-    # class 1 alone; regression for the fixed class 2 (hashid masked to 28 bits, 470723e)
+    # regressions for the fixed classes 1 (explicit id honoured outside Mutable, 7ee9e78: ids 7,1,9) and
+    # 2 (hashid masked to 28 bits, 470723e)
     out.append(dict(kind="struct", rname="ApIds", cname=None, ext="appendable", nested=False, tuple=False,
                     members=[m("a", P("i32"), id=7), m("b", P("u8")), m("c", P("i64"), id=9, key=True)]))
     out.append(dict(kind="struct", rname="Hashed", cname=None, ext="mutable", nested=False, tuple=False,
                     members=[m("color", P("i32"), hashid=True), m("x", P("i32")), m("shapesize", P("i32"), hashid=True)]))
+    # class 3 in a final struct: the explicit id of `a` collides with the index of `b` (ids 1,1)
+    out.append(dict(kind="struct", rname="FinalClash", cname=None, ext="final", nested=False, tuple=False,
+                    members=[m("a", P("i32"), id=1), m("b", P("i32")), m("c", P("u8"), ns=True)]))
+    # non_serialized members of a final / appendable struct, also first and last, also in a tuple struct
+    out.append(dict(kind="struct", rname="NsFinal", cname=None, ext="final", nested=False, tuple=False,
+                    members=[m("s0", P("i64"), ns=True), m("a", P("i32"), key=True), m("s1", ("string",), ns=True, default=("s", "x")),
+                             m("b", ("vec", P("u16"))), m("s2", ("opt", P("u8")), ns=True)]))
+    # the failing declaration of the fixed class 6: must be accepted by the serializers (oracle: ser_judged)
+    out.append(dict(kind="struct", rname="Ns", cname=None, ext="final", nested=False, tuple=False,
+                    members=[m("a", P("i32")), m("b", P("i32"), ns=True), m("c", P("i64")),
+                             m("s", ("string",), ns=True), m("d", ("string",))]))
+    out.append(dict(kind="struct", rname="NsTup", cname=None, ext="appendable", nested=False, tuple=True,
+                    members=[m("f0", P("i32")), m("f1", P("f64"), ns=True), m("f2", P("bool"), id=40), m("f3", P("u8"))]))
     # the automatic counter is RESET by a lower explicit id ("previous member's id + 1"): 10,11,5,6,7
     out.append(dict(kind="struct", rname="Reset", cname=None, ext="mutable", nested=False, tuple=False,
                     members=[m("a", P("i32"), id=10), m("b", P("i64")), m("c", P("i32"), id=5, key=True),
@@ -787,8 +813,17 @@ fn rt<T: TypeSupport + Clone + PartialEq + Canon>(i: usize, k: usize, v: T, mu: 
 '''
 
 
-def attr(items):
-    return "#[dust_dds(%s)]\n" % ", ".join(items) if items else ""
+def attr(items, split=0):
+    """the attributes of one item; split % 3 != 0 writes them as several #[dust_dds(..)] attributes
+    (every one of them is read since fix 99bf327; the declaration is the union of their items)"""
+    if not items:
+        return ""
+    if len(items) < 2 or split % 3 == 0:
+        return "#[dust_dds(%s)]\n" % ", ".join(items)
+    if split % 3 == 1:      # one attribute per item
+        return "".join("#[dust_dds(%s)]\n" % x for x in items)
+    k = 1 + split % (len(items) - 1)
+    return "#[dust_dds(%s)]\n#[dust_dds(%s)]\n" % (", ".join(items[:k]), ", ".join(items[k:]))
 
 
 def rust_decl(d):
@@ -804,7 +839,7 @@ def rust_decl(d):
             items.append("nested")
         if d["seed"] % 2:
             items.reverse()
-        o.append("#[derive(DdsType, Clone, PartialEq, Debug, Default)]\n" + attr(items))
+        o.append("#[derive(DdsType, Clone, PartialEq, Debug, Default)]\n" + attr(items, d["seed"] // 7))
         fields = []
         for i, m in enumerate(d["members"]):
             a = []
@@ -824,7 +859,7 @@ def rust_decl(d):
                 a.append('try_construct = "%s"' % m["tc"])
             if (d["seed"] + i) % 2:
                 a.reverse()
-            at = attr(a).replace("\n", " ")
+            at = attr(a, d["seed"] // 11 + i).replace("\n", " ")
             if d["tuple"]:
                 fields.append("    %s%s," % (at, rust_ty(m["ty"])))
             else:
@@ -846,7 +881,7 @@ def rust_decl(d):
             items.append("nested")
         if d["bits"] != 32 or d["seed"] % 3 == 0:
             items.append('bit_bound = "%d"' % d["bits"])
-        o.append("#[derive(DdsType, Clone, Copy, PartialEq, Debug)]\n" + attr(items))
+        o.append("#[derive(DdsType, Clone, Copy, PartialEq, Debug)]\n" + attr(items, d["seed"] // 7))
         vs = ["    %s%s," % (n, "" if x is None else " = %d" % x) for n, x in d["variants"]]
         o.append("enum %s {\n%s\n}\n" % (rn, "\n".join(vs)))
         o.append("impl Default for %s { fn default() -> Self { %s::%s } }\n" % (rn, rn, d["variants"][0][0]))
@@ -864,14 +899,14 @@ def rust_decl(d):
         items.append("switch(key, %s)" % d["disc"] if d["dkey"] else "switch(%s)" % d["disc"])
         if d["seed"] % 2:
             items.reverse()
-        o.append("#[derive(DdsType, Clone, PartialEq, Debug)]\n" + attr(items))
+        o.append("#[derive(DdsType, Clone, PartialEq, Debug)]\n" + attr(items, d["seed"] // 7))
         vs = []
         arms = []
         for i, v in enumerate(d["variants"]):
             a = ["case = %d" % c for c in v["cases"]]
             if v["default"]:
                 a.insert((d["seed"] + i) % (len(a) + 1), "default")
-            at = attr(a).replace("\n", " ")
+            at = attr(a, d["seed"] // 11 + i).replace("\n", " ")
             if v["ty"] is None:
                 vs.append("    %s%s," % (at, v["name"]))
                 arms.append("%s::%s => \"(VUnion %d None)\".to_string()" % (rn, v["name"], i))
@@ -1000,6 +1035,8 @@ def run(ctx):
         decls = (corpus_decls() if pi == 0 else []) + gen_decls(r, per, first_idx=pi * 1000)
         for j, d in enumerate(decls):
             d["seed"] = r.randrange(1000)
+            if d["rname"] in SPLIT_SEEDS:
+                d["seed"] = SPLIT_SEEDS[d["rname"]]
         vals = [corpus_values(d) if not d["rname"][1:].isdigit() else gen_values(r, d, ctx.tier) for d in decls]
         programs.append(rust_program(decls, vals))
         all_decls.append(decls)
@@ -1263,12 +1300,13 @@ MANIFEST = {
              "default variant last, create_sample(create_dynamic_sample(v)) = Some v, up to non_serialized members which "
              "come back as their default; create_dynamic_sample panics exactly on the documented bare Option::None; "
              "(2) ids: hashed ids are the little-endian u32 of the first four MD5 bytes of the member name masked to "
-             "28 bits (MD5 itself is a Coq function, not a parameter), explicit ids are honoured in Mutable structures and IGNORED in "
-             "Final/Appendable ones, otherwise ids are sequential; un-hashed ids are pairwise distinct when every "
+             "28 bits (MD5 itself is a Coq function, not a parameter), explicit ids are honoured in every extensibility kind, otherwise ids are "
+             "sequential (Mutable: previous un-hashed id + 1, also after a LOWER explicit id; Final/Appendable: the "
+             "member index); un-hashed ids are pairwise distinct when no id is explicit or, in a Mutable structure, every "
              "explicit id is at least the automatic counter, in general distinctness is a decidable test that the macro "
              "does not apply (witness: a clashing declaration is accepted and its values do not round trip); "
              "(3) descriptor_reflects_declaration: the published description is a function of the declaration that "
-             "preserves names, order, ids, member type signatures, key/optional/must-understand flags, try_construct, "
+             "omits non_serialized members and preserves names, order, ids, member type signatures, key/optional/must-understand flags, try_construct, "
              "extensibility, nested flag, union labels and default flag, enum name and bit bound; the clause on enum "
              "literal values is refuted (enums differing only in their literals have equal descriptions). "
              "The model is tied to the code on every check: N random declarations plus the README examples are "
@@ -1279,13 +1317,15 @@ MANIFEST = {
     "note": ("Trusted: Coq kernel + vm_compute; hand model DeriveModel.v (correspondence-checked each run); MD5 model "
              "KeyHash/Md5Model.v; the declaration pretty-printer and the canonical printers inside the generated "
              "program; rustc. Axioms: none. Not covered: generics, base_type, external, non-literal ids/labels, enum "
-             "discriminators, more than one #[dust_dds] attribute per item (only the first is read), user Default impls "
+             "discriminators, user Default impls "
              "other than derive/first-variant, NaN and -0.0. Recorded deviations of the real code (known findings, each "
-             "with a patch under proposed_fixes/): explicit id ignored outside Mutable; "
-             "duplicate member ids accepted; enum literals not published; union default arm / implicit label order; "
-             "non_serialized member published as an ordinary member (Final/Appendable types cannot be serialized). "
-             "Fixed after being found here: hashid not masked to 28 bits (470723e), Vec<i8> published as "
-             "sequence<uint8> and therefore not serializable (7de5ab3). Documentation deviations: omitted `case` "
+             "with a patch under proposed_fixes/): duplicate member ids accepted (also an explicit id equal to the index "
+             "of another member of a Final/Appendable structure); enum literals not published; union default arm / "
+             "implicit label order. Fixed after being found here: explicit id ignored outside Mutable (7ee9e78), "
+             "non_serialized member published as an ordinary member so that Final/Appendable types could not be "
+             "serialized (0840b55), hashid not masked to 28 bits (470723e), Vec<i8> published as "
+             "sequence<uint8> and therefore not serializable (7de5ab3), only the first #[dust_dds(..)] attribute of an "
+             "item was read (99bf327; declarations are now printed with split attributes). Documentation deviations: omitted `case` "
              "is index+1 (README: 0-indexed index); default_value is used only with optional / try_construct = "
              "USE_DEFAULT / non_serialized; a union variant field named `data` does not compile (macro hygiene); an "
              "explicit id of u32::MAX makes the proc macro panic (overflow)."),
